@@ -33,3 +33,36 @@ class D2(HasTraits):
     q = DelegatesTo("par", "b")      # -> D.b (explicit name) -> par.tb (explicit name)
     q2 = DelegatesTo("par", "a")     # -> D.a (same name: derived from the incoming name) -> par.a
     q3 = DelegatesTo("par", "c")     # -> D.c ('pre_*': derived from the incoming name) -> par.pre_c
+
+
+class DBase(HasTraits):
+    """declares the same deferring attributes against ANOTHER delegate link (and other targets); DSub overrides them all"""
+    __prefix__ = "pp_"
+    par0 = Instance(P)
+    par = Instance(P)
+    a = DelegatesTo("par0", "tb")
+    b = DelegatesTo("par0")
+    c = DelegatesTo("par0", "a")
+    e = DelegatesTo("par0", "pre_*")
+    pa = PrototypedFrom("par0", "ptb")
+    pb = PrototypedFrom("par0", "pa")
+    pc = PrototypedFrom("par0", "*")
+    pe = PrototypedFrom("par0", "pa")
+
+
+class DSub(DBase):
+    a = DelegatesTo("par")
+    b = DelegatesTo("par", "tb")
+    c = DelegatesTo("par", "pre_*")
+    e = DelegatesTo("par", "*")
+    pa = PrototypedFrom("par")
+    pb = PrototypedFrom("par", "ptb")
+    pc = PrototypedFrom("par", "pre_*")
+    pe = PrototypedFrom("par", "*")
+
+
+class D2Sub(HasTraits):
+    par = Instance(DSub)
+    q = DelegatesTo("par", "b")
+    q2 = DelegatesTo("par", "a")
+    q3 = DelegatesTo("par", "c")
